@@ -53,6 +53,7 @@ type Plan struct {
 	WorkdirRoot bool        `json:"workdir_root,omitempty"`
 	UniqueNames bool        `json:"unique_names,omitempty"`
 	SetupFail   int         `json:"setup_fail"`          // index of a script whose Setup fails, -1 none
+	PriorKeep   bool        `json:"prior_keep,omitempty"` // an earlier RunT call of the same process (one script) asked for its work directory to be retained
 	Missing     int         `json:"missing,omitempty"`   // 1+index of a script whose file has vanished by the time its turn comes (0: none)
 	HostRace    bool        `json:"host_race,omitempty"` // the host environment has GORACE set
 	Verbose     bool        `json:"verbose,omitempty"`
@@ -62,7 +63,7 @@ type Plan struct {
 }
 
 var kinds = []string{"mkdir", "cp", "mv", "rm", "cd", "cdback", "env", "envexpand", "exists", "notexists", "execfg", "execenv", "execpwd", "execbg", "execbgshort", "wait",
-	"toolguard", "notoolguard", "stop", "skip", "fail", "negfail", "probe", "probe", "defer", "defer", "writecanary", "deferfail", "execbgsave", "worktool", "execbgchild"}
+	"toolguard", "notoolguard", "stop", "skip", "fail", "negfail", "probe", "probe", "defer", "defer", "writecanary", "deferfail", "execbgsave", "worktool", "execbgchild", "tskip", "tfailnow"}
 
 func genPlan(t *rapid.T, tier string) any {
 	p := &Plan{SetupFail: -1}
@@ -88,6 +89,7 @@ func genPlan(t *rapid.T, tier string) any {
 	if rapid.IntRange(0, 5).Draw(t, "setupfail") == 0 {
 		p.SetupFail = rapid.IntRange(0, n-1).Draw(t, "setupfailidx")
 	}
+	p.PriorKeep = rapid.IntRange(0, 5).Draw(t, "priorkeep") == 0
 	if rapid.IntRange(0, 7).Draw(t, "missing") == 0 {
 		p.Missing = 1 + rapid.IntRange(0, n-1).Draw(t, "missingidx")
 	}
@@ -151,6 +153,10 @@ func scriptText(i int, s Script, tool string) string {
 			foreverBg = true
 		case "deferfail":
 			fmt.Fprintf(&b, "deferfail %d\n", l.Arg)
+		case "tskip":
+			b.WriteString("tskip\n")
+		case "tfailnow":
+			b.WriteString("tfailnow\n")
 		case "execbgchild":
 			// a background program that exits soon but leaves a descendant holding its output for a while
 			fmt.Fprintf(&b, "exec stub bg=true run=%dus out=bgc%d hold=%dus &\n", (4+l.Arg)*1000+us, i, (150+l.Arg*100)*1000+us)
@@ -334,6 +340,17 @@ func execute(t *testing.T, p *Plan, dir, tag string, idx []int, tool string, kee
 					add(record{ts.Getenv("SIDX"), "probe", strings.Join(args, " "),
 						fmt.Sprintf("cwd=%s VAR=%q SEEN=%q CANARY=%q\n%s", cwd, ts.Getenv("VAR"), ts.Getenv("SEEN"), ts.Getenv(canary), listing(work))})
 				},
+				// custom commands that end the script through the T they got from Env.T, behind the engine's back
+				"tskip": func(ts *testscript.TestScript, neg bool, args []string) {
+					if tt, _ := ts.Value("T").(testscript.T); tt != nil {
+						tt.Skip("skipped by a custom command")
+					}
+				},
+				"tfailnow": func(ts *testscript.TestScript, neg bool, args []string) {
+					if tt, _ := ts.Value("T").(testscript.T); tt != nil {
+						tt.FailNow()
+					}
+				},
 				"deferfail": func(ts *testscript.TestScript, neg bool, args []string) {
 					// a cleanup that finds something wrong and fails the test from inside the deferred call
 					name := ts.Getenv("SIDX")
@@ -436,6 +453,17 @@ func run(t *testing.T, plan any, keep bool) *simcheck.Outcome {
 	}
 	// process-global names (the [exec:] result cache is keyed by program name) are made
 	// unique per plan and phase, so that the reference runs are not polluted by the batch
+	if p.PriorKeep {
+		// RunT calls of one process are independent: what an earlier call asked for (retention) must not stick
+		pp := *p
+		pp.TestWork, pp.WorkdirRoot, pp.Missing, pp.SetupFail, pp.UniqueNames = true, false, 0, -1, false
+		prior := execute(t, &pp, dir, "p", []int{0}, fmt.Sprintf("tool_%d_p", planSeq), false)
+		if prior.rep.Deadlock || prior.rep.StepCap {
+			out.Inconclusive = "the earlier RunT call did not finish: " + prior.rep.DescribeBlocked()
+			return out
+		}
+		out.Count("prior_runt_calls_with_retention", 1)
+	}
 	batch := execute(t, p, dir, "b", all, fmt.Sprintf("tool_%d_b", planSeq), keep)
 	rep := batch.rep
 	out.TraceHash, out.Steps, out.Trace = rep.TraceHash, rep.Steps, rep.Trace
@@ -687,8 +715,8 @@ var harness = &simcheck.Harness{
 	Property: "C04",
 	Level:    "exploration",
 	Rule: "rapid draws a batch of 2-4 scripts of 2-9 lines each over the same relative names (mkdir cp mv rm cd env exists, foreground / background stub processes that create files and print their environment and cwd, background programs that exit but leave a descendant holding their output pipes for 150-450 ms, wait, " +
-		"[exec:tool] guards with per-script PATHs (a shared tool directory that only some scripts have on PATH; a $WORK/bin that every script puts on PATH and only some install the program into), stop, skip, failing and negated lines, probe and defer custom commands), retention options (TestWork / WorkdirRoot), RequireUniqueNames with a duplicate entry, " +
-		"a failing Setup, a script file that has vanished, host GORACE, verbosity, a -parallel limit and a schedule; the batch runs once, then every script runs alone; non-trivial = more context switches than scripts+2; distinct by decision-trace hash",
+		"[exec:tool] guards with per-script PATHs (a shared tool directory that only some scripts have on PATH; a $WORK/bin that every script puts on PATH and only some install the program into), stop, skip, failing and negated lines, probe and defer custom commands, custom commands that skip or fail the script directly through the T of Env.T), retention options (TestWork / WorkdirRoot), RequireUniqueNames with a duplicate entry, " +
+		"a failing Setup, a script file that has vanished, optionally an earlier RunT call in the same process that asked for retention, host GORACE, verbosity, a -parallel limit and a schedule; the batch runs once, then every script runs alone; non-trivial = more context switches than scripts+2; distinct by decision-trace hash",
 	Gen:     genPlan,
 	NewPlan: func() any { return &Plan{} },
 	Run:     run,
